@@ -191,7 +191,18 @@ fn main() {
             }
         }
     }
-    c.add_sweep(&format!("capabilities: all lists up to length {} over 8 shapes, long lists of 5..48 entries, every capability id 0..=255 at every position of a four-entry list, x 2 placements; 40 lists x 16 further status-register contents", maxlen), ev, lists.len() as u64, true, J::obj());
+    // The same chains in configuration space without the capabilities-list status bit.
+    for l in lists.iter().take(200) {
+        for rev in [false, true] {
+            for x in [0u16, 0xffef] {
+                ev += 1;
+                for (k, d) in c12::capability_walk_case_full(l, rev, x, false) {
+                    c.add_violation(Violation::new("C12", k, format!("status register {:#06x} (no capabilities-list bit): {}", x & !0x10, d)), "capabilities", J::obj().set("kind", J::s("case")).set("case", J::s(d)), vec![]);
+                }
+            }
+        }
+    }
+    c.add_sweep(&format!("capabilities: all lists up to length {} over 8 shapes, long lists of 5..48 entries, every capability id 0..=255 at every position of a four-entry list, x 2 placements; 40 lists x 16 further status-register contents; 200 chains without the capabilities-list status bit (no list)", maxlen), ev, lists.len() as u64, true, J::obj());
     c.add_sample(J::obj().set("case", J::s("bar_info(slot 2) on Mem64{size 2^33, prefetchable} at 0x8_0000_0000 with command 0x0407 -> Memory{Width64, prefetchable, address, size}; command and BARs restored; sizing writes with decode off")));
     c.finish();
 }
